@@ -254,7 +254,11 @@ struct Input
 };
 
 static std::vector<gb::Mode> gModes;
-static uint64_t gSuffixes, gBlocksA;
+struct ALayout
+{
+    uint64_t first, suffixes, blocks;
+};
+static std::vector<ALayout> gAL;
 
 static const char* kNums[] = { "0", "1", "5", "2147483647", "2147483648", "4294967295", "4294967296", "9223372036854775807", "9223372036854775808",
                                "18446744073709551615", "18446744073709551616", "99999999999999999999", "-1", "+1", "0x10", "1e9", "", " 5", "5 ",
@@ -397,11 +401,14 @@ static void run_block(uint64_t idx, vr::Ctx& ctx)
     };
     if (idx < secC0)
     {
-        const gb::Mode& m = gModes[(idx - secA0) / gBlocksA];
-        uint64_t blk      = (idx - secA0) % gBlocksA;
-        for (uint64_t k = blk * kBlock; k < (blk + 1) * kBlock && k < gSuffixes; ++k)
+        size_t mi = 0;
+        while (mi + 1 < gAL.size() && gAL[mi + 1].first <= idx - secA0)
+            ++mi;
+        const gb::Mode& m = gModes[mi];
+        uint64_t blk      = idx - secA0 - gAL[mi].first;
+        for (uint64_t k = blk * kBlock; k < (blk + 1) * kBlock && k < gAL[mi].suffixes; ++k)
         {
-            auto v = gb::nth<char>(k, gb::kSigma, gb::kNSigma, L);
+            auto v = gb::nth<char>(k, m.alpha.data(), m.alpha.size(), L);
             std::string suf(v.begin(), v.end());
             Input a { m.prefix + suf, { m.prefix.size() }, m.name, (int)suf.size() <= Lb };
             feed(a);
@@ -452,11 +459,19 @@ int main(int argc, char** argv)
     for (auto& m : gb::modes())
         if (!m.response)
             gModes.push_back(m);
-    gSuffixes = gb::count_upto(gb::kNSigma, L);
-    gBlocksA  = (gSuffixes + kBlock - 1) / kBlock;
+    uint64_t atA = 0;
+    for (auto& m : gModes)
+    {
+        ALayout a;
+        a.first    = atA;
+        a.suffixes = gb::count_upto(m.alpha.size(), L);
+        a.blocks   = (a.suffixes + kBlock - 1) / kBlock;
+        atA += a.blocks;
+        gAL.push_back(a);
+    }
     init_headers();
     secA0 = 0;
-    secC0 = gModes.size() * gBlocksA;
+    secC0 = atA;
     secD0 = secC0 + (uint64_t)kNFields * kNNums;
     total = secD0 + gBlocksD;
     return vr::run(opt, total, [](uint64_t idx, vr::Ctx& ctx) {
